@@ -20,7 +20,8 @@ EXPLANATION = (
     "every entry exactly once under its true labels (sparse: exactly the non-zero entries). (2) Each exported frame is re-imported "
     "as it is, with rows reversed / rotated, columns reversed, dimension columns headed by letter / mixed / recognisable only by "
     "their items, value column renamed, single-item dimension columns left out, and after a CSV text round trip: from_df must "
-    "return the identical array, entry by entry (exact symbolic equality). (3) No index array is cast to an integer type narrower "
+    "return the identical array, entry by entry (exact symbolic equality); the same after an earlier export/import, in the same "
+    "process, of an array whose dimensions have the same names and items in another order (no state carried between calls). (3) No index array is cast to an integer type narrower "
     "than the platform index. The pandas model follows documented behaviour; pandas itself is trusted.")
 TECHNIQUE = "static analysis: abstract interpretation of export/import code over symbolic cell values with a model of the pandas operations in use; round trips decided exactly"
 
@@ -30,7 +31,7 @@ ARRAYS_THOROUGH = ARRAYS_QUICK + [("t",), ("b", "a"), ("a", "b", "t"), ("t", "b"
 
 def _worker(prog, rep, job):
     kind, letters, tier = job
-    res = DC.case_to_df(prog, letters) if kind == "to_df" else DC.case_roundtrips(prog, letters, tier)
+    res = DC.case_to_df(prog, letters) if kind == "to_df" else DC.case_df_history(prog, letters) if kind == "hist" else DC.case_roundtrips(prog, letters, tier)
     fails = {}
     for inp, ok, msg, qual in res:
         rule = "C11.to_df-lists-every-entry" if kind == "to_df" else "C11.roundtrip-identical"
@@ -89,7 +90,7 @@ def run(prog, rep):
         prog.method(c, m)
     prog.cls("DataFrameToFlodymDataConverter")
     arrays = ARRAYS_QUICK if rep.tier == "quick" else ARRAYS_THOROUGH
-    jobs = [("to_df", l, rep.tier) for l in arrays] + [("rt", l, rep.tier) for l in arrays]
+    jobs = [("to_df", l, rep.tier) for l in arrays] + [("rt", l, rep.tier) for l in arrays] + [("hist", l, rep.tier) for l in arrays]
     fails = {}
     for part in pmap(_worker, jobs, prog, rep):
         for k, (count, inp, msg) in part.items():
